@@ -27,7 +27,7 @@ RULE = ('directed corpus (docstring examples, boundaries) + seeded blocks; every
         'on-high, above, degenerate}; no operator x {equal, substring, superstring, other}; x separators of spaces '
         'and tabs. Inputs outside the documented grammar are run as DONT-CARE and only recorded. '
         'non-trivial = every case; distinct by (value, spec)')
-REQUIRED_CLAUSES = ['extra-whitespace-around-spec', 'numeric-op', 'string-op', 'in', 'all-in', 'or', 'range-in', 'no-operator',
+REQUIRED_CLAUSES = ['documented-keyword-call', 'extra-whitespace-around-spec', 'numeric-op', 'string-op', 'in', 'all-in', 'or', 'range-in', 'no-operator',
                     'dont-care-recorded']
 ASSUMPTIONS = ['numeric oracle: exact rational comparison (fractions.Fraction built from the generated digit strings); '
                'asserted only for numerals with at most 15 significant digits, where float() is order- and '
@@ -218,6 +218,8 @@ def outcome_of(got, exc):
 
 def call_match(value, spec):
     from oslo_utils import specs_matcher
+    from vlib import callstyle
+    specs_matcher = callstyle.proxy(specs_matcher)
     try:
         return specs_matcher.match(value, spec), None
     except BaseException as e:  # noqa
@@ -346,7 +348,11 @@ def spell(rng, n, k, canonical=False):
 def gen_scaled(rng):
     """-> (n, k): a number n / 10**k from one of the magnitude classes."""
     k = rng.choice([0, 0, 0, 0, 1, 1, 2, 3, 4])
-    c = rng.randrange(6)
+    c = rng.randrange(7)
+    if c == 6:
+        # tiny magnitudes: few significant digits far behind the decimal point (absolute differences below the
+        # machine epsilon, relative differences huge - doubles tell them apart without any doubt)
+        return rng.randint(-10 ** rng.choice([1, 2, 6]), 10 ** rng.choice([1, 2, 6])), rng.randint(15, 25)
     if c == 0:
         n = rng.randint(-30, 30)
     elif c == 1:
